@@ -355,7 +355,7 @@ def compare_sessions(sessions, impl, model, proj=None):
     return dis
 
 
-def ddmin(ops, fails, keep_first=1, budget=200):
+def ddmin(ops, fails, keep_first=1, budget=60):
     """delta debugging on a list of op lines; `fails(ops)` re-runs and says whether the failure
     is still there. The first `keep_first` lines (the reset) are always kept."""
     head, body = ops[:keep_first], ops[keep_first:]
@@ -416,7 +416,7 @@ class Ctx:
             return bool(d)
         return ddmin(ops, fails, keep_first)
 
-    def shrink(self, ops, fails, keep_first=1, budget=200):
+    def shrink(self, ops, fails, keep_first=1, budget=60):
         """generic delta debugging: `fails(ops) -> bool` re-runs whatever exhibits the failure"""
         return ddmin(ops, fails, keep_first, budget)
 
